@@ -424,6 +424,10 @@ func c07(c *Ctx) {
 	c.R.Min("C07.R6", 2, "GetResource, its closure")
 	c07privateGroup(c)
 	c07sharedValue(c)
+	// R9 (round 5): the flight's main in-tree user. Every cache is given one shared flight group and hands it on to the
+	// nodes it builds; a reader that joined a flight returns that flight's error (not something derived from its own context).
+	c06sharedBarrierAs(c, "C07.R9")
+	c06barrierUse(c, "C07.R9")
 }
 
 // c07privateGroup (C07.R7): every ResourceManager owns its flight group. The flight key is only the
